@@ -50,7 +50,7 @@ ASSUME = ["physical constants (GM values, radii, solar flux, AU, c), the coeffic
           "Montenbruck's planar two-disc shadow model and the IERS/Montenbruck Schwarzschild term are the documented formulas",
           "ray stand-in (rvmon/shimray.py) replaces the executor for the Scenario runs; everything else is repository code"]
 SHARDS = {"quick": 4, "thorough": 16}
-BUDGET_S = {"quick": 75, "thorough": 900}
+BUDGET_S = {"quick": 58, "thorough": 560}
 DECIDING = ["deriv_post", "prop_sampled", "frame_epoch", "ephem_continuity", "ephem_analytic"]
 MANIFEST = {
     "technique": "runtime monitoring: postcondition on the real right-hand side against an independent force model (complex-step gradient of the potential), direct grid + sampled during real propagations",
@@ -69,38 +69,46 @@ D1 = datetime(2022, 10, 2)
 LEAPS = [datetime(2015, 7, 1), datetime(2017, 1, 1)]
 OMEGA_E = 7.292115e-5
 
-# ---- tolerances (DESIGN 3.7; calibrated on the unchanged tree, see comments) --------------------
-# Total derivative, identical inputs.  Error sources: float64 rounding of the repository's sum (a few ulp of the
-# point-mass term = 1.1e-16 relative each) and of the Cunningham recursion (<= 1e-13 of the 1e-3 harmonic part).
-# Worst observed over 1.2e6 states of this workload: 4.6e-16 |a|.  100x head-room -> 5e-14 (<= the 1e-12 of the design).
+# ---- tolerances (DESIGN 3.7; calibrated on the unchanged tree: thorough seed 0 = 1.03e6 grid states + 2.0e5 sampled) ----
+# Total derivative, identical inputs (same epoch, same rotation matrix, same body positions).  Error sources: float64
+# rounding of the repository's sum (a few ulp of the point-mass term, 1.1e-16 relative each) and of the Cunningham
+# recursion (<= 1e-14 of the <= 1e-3 harmonic part).  Worst observed 6.5e-16 |a|; ~80x head-room -> 5e-14
+# (tighter than the 1e-12 of the design; a Jupiter switch in LEO is 3e-13 |a|, a J2 slip 1e-3 |a|).
+# When SRP is configured the conditioning of the documented shadow formula is added (see K_FRACTION).
 TOL_TOTAL = 5e-14
-# Per-term comparisons (relative to the term itself): worst observed geopotential 2e-13 (degree-20 recursions at
-# 10 Earth radii, where the high harmonics underflow against J2), third body 3e-15, GR 6e-16 -> 1e-12 as in the design
-# (geopotential 2e-11: 100x the worst observed).
+# Per-term comparisons, relative to the term itself.  Worst observed: geopotential gradient 4.2e-15, Schwarzschild
+# 9.4e-16 -> 1e-12;  third body 8.1e-14 (Vallado's q-form evaluates r^2 + 2 r.(s-r) in float64, which cancels when
+# the satellite is about as far from the body as the Earth is) -> 1e-11;  one isolated harmonic 6.3e-14 -> 1e-11.
 TOL_TERM = 1e-12
-TOL_GEO_TERM = 2e-11
-# One isolated harmonic (n, m): error relative to that harmonic's own acceleration, worst observed 3e-13.
-TOL_HARMONIC = 3e-11
-# Visible Sun fraction: the repository obtains the apparent separation from arccos(dot/(|r||d|)), conditioning
-# eps/sin(c) <= 2e-15 rad for c >= 0.1 rad, times d(fraction)/dc <= 2/(pi a) = 140 / rad -> 3e-13; near tangency of
-# the discs sqrt behaviour adds ~sqrt(eps)*a^... ; worst observed 4e-12 -> 4e-10.
+TOL_GEO_TERM = 1e-12
+TOL_TB_TERM = 1e-11
+TOL_HARMONIC = 1e-11
+# Visible Sun fraction.  The documented formula (Montenbruck 3.92-3.94) evaluates b^2 acos((c-x)/b) whose argument is
+# cos(y/b), y = half chord << b: its rounding error is eps b^3 / (y pi a^2) of the solar disc (1e-10 in LEO, growing
+# like 1/sqrt(distance to tangency); the repository can even return 1 + 1e-8).  That is the conditioning of the
+# documented formula, so the tolerance follows it: K_FRACTION x forceref.fraction_error_scale.  Worst observed ratio
+# |difference| / scale = 1.37 over 1.2e5 penumbra cases (+1.7e4 in the thorough run) -> K = 100.
 K_FRACTION = 100.0
 # Frame: the force model takes the sidereal angle from the calendar fields of the *float* Julian date
-# (half an ulp of 2.45e6 d = 20.1 us -> 1.47e-9 rad; worst observed 1.6e-9) while precession/nutation/polar motion
-# come from the whole-second rounded datetime (<= 0.5 s x 1e-11 rad/s).  5e-8 rad = 30x that hard bound; a dropped
-# polar motion (1e-6), equation of equinoxes (5e-5), dUT1 (2e-5) or a transposition (O(1)) are far above it.
+# (half an ulp of 2.45e6 d = 20.1 us -> 1.47e-9 rad; worst observed 1.5e-9 over 1.7e5 epochs) while precession /
+# nutation / polar motion come from the whole-second rounded datetime (<= 0.5 s x 1e-11 rad/s).  5e-8 rad = 30x that
+# hard bound; a dropped polar motion (1e-6), equation of the equinoxes (5e-5), dUT1 (2e-5) or a transposition (O(1))
+# are far above it.  Within 0.5 s of a midnight the day-to-day step of the EOP table is added (EOP steps are
+# accepted as continuous, as in C04) - except the 1 s leap-second step of dUT1, which is not a continuous step.
 TOL_FRAME = 5e-8
 TOL_ORTHO = 1e-13
 # Analytic ephemerides: Vallado quotes 0.01 deg (Sun) and 0.3 / 0.2 deg (Moon).  The error is a smooth deterministic
 # function of time; an exhaustive scan of the whole EOP span in 0.01 d steps (320 000 epochs) gives maxima of
 # 0.01127 deg / 7.7e-5 relative distance (Sun) and 0.3574 deg / 3.34e-3 (Moon); slopes <= 0.07 deg/d make the scan
-# complete to 1e-3 deg.  (Includes the unmodelled UTC-TDB offset of 69 s = 0.01 deg of lunar motion.)
+# complete to 1e-3 deg, which is why less than 100x head-room is sound here.  (Includes the unmodelled UTC-TDB offset
+# of 69 s = 0.01 deg of lunar motion.)  A wrong interval / body / sign is degrees off.
 TOL_SUN_DEG, TOL_SUN_DIST = 0.02, 2e-4
 TOL_MOON_DEG, TOL_MOON_DIST = 0.5, 8e-3
-# Chebyshev evaluation (Clenshaw vs numpy chebval, differences of <= 1.5e8 km vectors): worst observed 9e-16 relative.
+# Chebyshev evaluation (Clenshaw vs numpy chebval, differences of <= 1.5e8 km vectors): worst observed 1.1e-15 relative.
 TOL_CHEB = 1e-13
-# Continuity: second difference of positions sampled at -3d,-d,+d,+3d around a boundary (d = 1e-6 day): physical part
-# a d^2 < 1e-7 km; rounding of 1e8..1e9 km barycentric vectors 1e-7..1e-6 km; worst observed ratio to the bound below 0.02.
+# Continuity: positions at boundary + k d, k = -3,-1,0,1,3 with d = 2^-20 day (exactly representable Julian dates, so
+# no time-quantisation noise).  The compared combinations cancel velocity and leave a d^2/2 < 3e-8 km plus rounding of
+# the differenced 1e8..1e9 km vectors; worst observed 1.3e-7 km (Sun) -> bound 1e-13 |vector| + 1e-6 km (~120x).
 CONT_DELTA = 2.0 ** -20
 
 
@@ -539,8 +547,8 @@ def term_checks(ctx, E, cfg, jd, R, x, rng):
         got = E.body[b].mu * sp._getThirdBodyAcceleration(r, pos[b])  # noqa: SLF001
         ref = fr.third_body_accel(r, pos[b], E.body[b].mu).astype(float)
         err = float(np.linalg.norm(got - ref)) / float(np.linalg.norm(ref))
-        ctx.check(err <= TOL_TERM, "third-body-formula", f"mu*_getThirdBodyAcceleration({b}) differs from the direct formula by {err:.2e}", {"kind": "tb_term", "body": b, **w}, mon="term_third_body")
-        _track(ctx, "term_third_body", err / TOL_TERM)
+        ctx.check(err <= TOL_TB_TERM, "third-body-formula", f"mu*_getThirdBodyAcceleration({b}) differs from the direct formula by {err:.2e}", {"kind": "tb_term", "body": b, **w}, mon="term_third_body")
+        _track(ctx, "term_third_body", err / TOL_TB_TERM)
     sun = pos["sun"]
     got_f = float(E.viz(r, sun))
     ref_f, (a, b_, c) = fr.sun_visible_fraction(r, sun, E.body["sun"].radius, E.Earth.radius)
@@ -646,7 +654,7 @@ def continuity_check(ctx, E, body, jd_b, label):
     p0 = np.array(B.getPosition(jd_b), dtype=float)
     d1, d2, d3 = p[1] - p[0], p[2] - p[1], p[3] - p[2]
     dist = float(np.linalg.norm(p0))
-    bound = 3e-13 * max(dist, 1.5e8) + 1e-6  # rounding of the (barycentric) vectors that are differenced + a d^2
+    bound = 1e-13 * max(dist, 1.5e8) + 1e-6  # rounding of the (barycentric) vectors that are differenced + a d^2
     jump = float(np.linalg.norm(d2 - 0.5 * (d1 + d3)))
     mid = float(np.linalg.norm(p0 - 0.5 * (p[1] + p[2])))
     w = {"kind": "continuity", "body": body, "jd": jd_b, "label": label}
@@ -908,8 +916,8 @@ def run(ctx):
         run_scenario(ctx, E, pr, every, 30 if ctx.quick else 60)
     for k, v in _WORST.items():
         ctx.add_to_set("worst_error_over_tolerance:" + k, float(f"{v:.2g}"))
-    ctx.note("tolerances", {"total_rel": TOL_TOTAL, "term_rel": TOL_TERM, "geopotential_term_rel": TOL_GEO_TERM, "single_harmonic_rel": TOL_HARMONIC,
-                            "sun_fraction_x_conditioning": K_FRACTION, "frame_rad": TOL_FRAME, "sun_deg": TOL_SUN_DEG, "moon_deg": TOL_MOON_DEG, "chebyshev_rel": TOL_CHEB})
+    ctx.note("tolerances", f"total {TOL_TOTAL:g} |a| (+ SRP x {K_FRACTION:g} x shadow-formula conditioning); terms {TOL_TERM:g} (third body {TOL_TB_TERM:g}, single harmonic {TOL_HARMONIC:g}); "
+                           f"frame {TOL_FRAME:g} rad; Sun {TOL_SUN_DEG} deg; Moon {TOL_MOON_DEG} deg; Chebyshev {TOL_CHEB:g}")
 
 
 # ---------------------------------------------------------------------------------------------
